@@ -57,7 +57,7 @@ class M(object):
 VALUES = {
   "int": ([5, -3, 0, 7], [2, 0, -1, 3]),
   "bool": ([True, False, True, True], [False, True, True, False]),
-  "float": ([1.5, -0.25, 0.0, 2.0], [0.5, 2.0, -1.5, 0.0]),
+  "float": ([5.0, 7.0, -0.25, 10.0], [0.5, 3.0, -1.5, 0.0]),
   "complex": ([1 + 2j, -1j, 0j, 2 + 0j], [2 - 1j, 1 + 0j, 3j, 0j]),
   "Fraction": ([F(1, 2), F(-3, 4), F(0), F(5, 3)], [F(2), F(1, 3), F(-1, 2), F(0)]),
   "matrix": ([M(1, 2, 3, 4), M(0, 1, 1, 0), M(2, 0, 0, 2), M(1, 1, 0, 1)],
@@ -181,6 +181,48 @@ def run_op(case):
                "that element is requested", {"after": len(exp_items), "exception": exp_exc},
                {"after": len(got), "exception": exc}, nt)
   return R(None, nt, (op.symbol, op.rev, op.arity, exp_exc is not None))
+
+
+# ----------------------------------------- equal scalars of different types
+SCALAR_FAMILIES = [[2, 2.0, F(2), 2 + 0j], [2.0, 2, F(2)], [1, True, 1.0, F(1)], [True, 1], [0, False, 0.0],
+                   [3, F(3), 3.0], [F(3), 3], [-1, -1.0, F(-1)]]
+
+
+def gen_scalar_types(run):
+  for op in OpMethod.get("all"):
+    if op.arity != 2 or op.symbol == "@":
+      continue
+    for fi in range(len(SCALAR_FAMILIES)):
+      for elems in ("int", "Fraction", "float", "bigint"):
+        if elems == "bigint" and op.symbol in ("**", "<<"):
+          continue        # astronomically large results
+        yield (op.dname, fi, elems)
+
+
+def run_scalar_types(case):
+  """The same operator applied in sequence, in one process, to scalars that are == but of
+  different types: each result must be computed with the scalar actually given."""
+  dname, fi, elems = case
+  op = next(OpMethod.get(dname))
+  f = SYMBOL[op.symbol]
+  data = {"int": [5, 7, 10], "Fraction": [F(5), F(7, 2), F(1, 3)], "float": [5.0, 7.0, 0.3],
+          "bigint": [2 ** 60 + 1, 3, -2 ** 61 - 1]}[elems]
+  for c in SCALAR_FAMILIES[fi]:
+    s = Stream(list(data))
+    res = getattr(s, dname)(c)
+    exp = [try_elem(f, c, a) if op.rev else try_elem(f, a, c) for a in data]
+    items, exc = [], None
+    for tag, v in exp:
+      if tag == "e":
+        exc = v
+        break
+      items.append(v)
+    got, gexc = consume(res, len(items) + 2)
+    if len(got) != len(items) or any(not same_val(g, e) for g, e in zip(got, items)) or gexc != exc:
+      return bad("op:scalar-type", "a scalar operand must be used as given, whatever equal-valued scalars "
+                 "of other types the operator was applied to before",
+                 {"op": dname, "scalar": repr(c), "items": items, "then": exc}, {"items": got, "then": gexc})
+  return R(None, True, (op.symbol, op.rev))
 
 
 # ------------------------------------------------------------------ trees
@@ -557,6 +599,8 @@ def run_table(case):
 KINDS = OrderedDict([
   ("table", Kind(gen_table, run_table, rule="operator table: 35 methods, all installed on Stream")),
   ("ops", Kind(gen_ops, run_op, chunk=500, rule="operator x route x other kind x lengths x element type")),
+  ("scalar-types", Kind(gen_scalar_types, run_scalar_types, chunk=60,
+                        rule="operator x family of ==-equal scalars of different types applied in sequence x element type")),
   ("trees", Kind(gen_trees, run_tree, chunk=500, rule="expression trees; non-trivial: nested")),
   ("functions", Kind(gen_funcs, run_func, chunk=20, rule="broadcast function x container kind x route")),
   ("secondary", Kind(gen_secondary, run_secondary, chunk=8, rule="secondary parameters and the elementwise decorator itself")),
